@@ -100,6 +100,7 @@ func init() {
 	reg("Choose", func(in *Interp, fr *Frame, a []Value) Value {
 		n := int(a[1].(*Term).Int64())
 		v := in.freshVar(argStr(a[0]), BV(64))
+		in.assume(And(BVSle(i64(0), v), BVSlt(v, i64(int64(n)))))
 		r, ok := in.concretize(v, 0, int64(n-1), true)
 		if !ok {
 			panic(pathEnd{"choose out of range"})
